@@ -1,7 +1,8 @@
 """C27 The Valve device enforces its safe state on timeout
 
 domain : histories (starting with a reset) of target changes, switch readings,
-         clock advances, resets and update() calls; moving times 0.5, 5, 60 s;
+         clock advances, resets, take-overs of the device by a new sync group
+         and update() calls; moving times 0.5, 5, 60 s;
          safe state closed (default, all switch readings) and open (only
          readings in which the switches confirm nothing, so the position
          check does not depend on how it is read for a non-default safe
@@ -58,6 +59,9 @@ def strategy(tier):
             st.builds(lambda v: ["advance", v], dt),
             st.just(["update"]), st.just(["update"]), st.just(["update"]),
             st.just(["reset"]),
+            # the device is taken over by a new sync group (reconnect); the
+            # frame contents carry over
+            st.just(["regroup"]),
         ), min_size=1, max_size=40)
 
     return st.tuples(mt, safe).flatmap(
@@ -114,6 +118,7 @@ def _run(case, clock):
     m["last_good"] = clock.ticks
     trace = []
     branches = []
+    regrouped = False
     for op in [["reset"]] + case["ops"]:
         if op[0] == "target":
             v.target = op[1]
@@ -125,6 +130,17 @@ def _run(case, clock):
                 | (2 if sw[1] else 0)
         elif op[0] == "advance":
             clock.ticks += op[1]
+        elif op[0] == "regroup":
+            frame = bytes(sg.current_data)
+            sg = SyncGroup(ec, [v])
+            sg.allocate()
+            sg.current_data = bytearray(frame)
+            if (sg.pdo_assign[term][SyncManager.IN],
+                    sg.pdo_assign[term][SyncManager.OUT]) != (in_pos,
+                                                              out_pos):
+                from ..runner import HarnessError
+                raise HarnessError("the new group has another layout")
+            regrouped = True
         elif op[0] == "reset":
             v.reset()
             m["error"] = False
@@ -175,7 +191,8 @@ def _run(case, clock):
     nontrivial = any(b.startswith(("moving", "timeout")) for b in branches)
     return dict(ok=True, nontrivial=nontrivial,
                 key=repr((case["moving_ticks"], safe, branches)),
-                classes=sorted(set(branches)) + [f"safe={safe}"],
+                classes=sorted(set(branches)) + [f"safe={safe}"] + (
+                    ["second-sync-group"] if regrouped else []),
                 summary=trace[-6:])
 
 
